@@ -256,17 +256,46 @@ theorem builder_history (fresh : Nat → α → α) (n : Nat) (ops : List (Array
     simp only [bvBuild]
     split <;> rfl
 
-/-- with clones that preserve values, what the builder holds is the first `N` pushed values in push
-    order; `build` returns them iff at least `N` values were pushed -/
+/-- `target.clone_from(&source)` between two builders reached by ANY two histories (same `N`; the target
+    may hold more, fewer or as many elements as the source, either may be empty or full): the call
+    succeeds, drops exactly the old elements of the target (once each, in order) and leaves the target
+    holding exactly the numbered clones of the source's elements — `len`, `is_full`, `as_slice`, `build`
+    and `Drop` of the target are those of a clone of the source; nothing of the old target survives and
+    no unwritten slot is read.  The source is not touched (it is only read). -/
+theorem builder_clone_from (fresh cl : Nat → α → α) (n : Nat) (opsT opsS : List (ArrayBuilder.Op α)) :
+    let t := (ArrayBuilder.run fresh (ArrayBuilder.new n, 0) opsT).1.1
+    let s := (ArrayBuilder.run fresh (ArrayBuilder.new n, 0) opsS).1.1
+    let tacc := (bvRun fresh n ([], 0) opsT).1.1
+    let sacc := (bvRun fresh n ([], 0) opsS).1.1
+    let copy := ArrayBuilder.mapFrom cl 0 sacc
+    ∃ c, ArrayBuilder.cloneFrom cl t s = some (c, tacc) ∧
+      ArrayBuilder.len c = sacc.length ∧ ArrayBuilder.isFull c = decide (sacc.length = n) ∧
+      ArrayBuilder.asSlice c = some copy ∧ ArrayBuilder.dropped c = some copy ∧
+      ArrayBuilder.build c = (if sacc.length = n then .array copy else .panic) := by
+  intro t s tacc sacc copy
+  obtain ⟨ht, htn, _, _⟩ := bld_run fresh opsT (ArrayBuilder.new n) [] 0 (ArrayBuilder.wf_new n)
+  obtain ⟨hs, hsn, _, _⟩ := bld_run fresh opsS (ArrayBuilder.new n) [] 0 (ArrayBuilder.wf_new n)
+  have hn : (ArrayBuilder.new n : ArrayBuilder.Builder α).n = n := rfl
+  rw [hn] at ht hs htn hsn
+  obtain ⟨c, hc, hw, hcn⟩ := ArrayBuilder.wf_cloneFrom cl ht hs
+  refine ⟨c, hc, ?_, ?_, ArrayBuilder.wf_asSlice hw, ArrayBuilder.wf_dropped hw, ?_⟩
+  · simpa [ArrayBuilder.len] using hw.2.1
+  · rw [ArrayBuilder.wf_isFull hw, hcn, hsn]; simp [sacc]
+  · rw [ArrayBuilder.wf_build hw, hcn, hsn]; simp [copy, sacc]
+
+/-- with clones that preserve values, what the builder holds is the first `N` of the values pushed into
+    it in push order (`pushes`: a `clone_from` from a second builder restarts with the values pushed
+    into that builder); `build` returns them iff at least `N` values were pushed -/
 theorem builder_build_eq_pushes (n : Nat) (ops : List (ArrayBuilder.Op α)) :
     ArrayBuilder.build (ArrayBuilder.run (fun _ x => x) (ArrayBuilder.new n, 0) ops).1.1 =
       if n ≤ (pushes ops).length then .array ((pushes ops).take n) else .panic := by
   have h := (builder_history (fun _ (x : α) => x) n ops).2.2.2.2.2.2.1
+  unfold pushes
   rw [h, bvRun_values n ops [] 0 (by simp)]
-  simp only [List.nil_append, bvBuild, List.length_take]
-  by_cases hle : n ≤ (pushes ops).length
+  simp only [bvBuild, List.length_take]
+  by_cases hle : n ≤ (pushesFrom [] ops).length
   · simp [hle, Nat.min_eq_left hle]
-  · have : min n (pushes ops).length ≠ n := by omega
+  · have : min n (pushesFrom [] ops).length ≠ n := by omega
     simp [hle, this]
 
 /-! ### non-vacuity -/
@@ -280,6 +309,17 @@ example : (arrayMapByVal 10 [1, 2, 3] (fun _ a => if a = 2 then .brk else .value
 example : (arrayMapByVal 10 [1, 2, 3] (fun _ a => if a = 2 then .brk else .value a)).leakedIn = [3] := by decide
 /-- the `ub` outcome is a real state of the model: it is what the post-loop assert prevents -/
 example : assumeInit [some 1, none] = (Res.ub : Res Nat) := by decide
+/-- `clone_from` into a LONGER target: nothing of the old tail survives (a clone_from that only overwrote
+    the common prefix would leave `[100, 2, 3]` here and `build` would return it) -/
+example : (ArrayBuilder.run (fun k (_ : Nat) => 100 + k) (ArrayBuilder.new 3, 0)
+    [.push 1, .push 2, .push 3, .cloneFrom [7]]).2.getLast? = some (.clonedFrom [] [1, 2, 3] [7]) := by decide
+example : ArrayBuilder.asSlice (ArrayBuilder.run (fun k (_ : Nat) => 100 + k) (ArrayBuilder.new 3, 0)
+    [.push 1, .push 2, .push 3, .cloneFrom [7]]).1.1 = some [104] := by decide
+example : ArrayBuilder.build (ArrayBuilder.run (fun k (_ : Nat) => 100 + k) (ArrayBuilder.new 3, 0)
+    [.push 1, .push 2, .push 3, .cloneFrom [7]]).1.1 = .panic := by decide
+example : ArrayBuilder.build (ArrayBuilder.run (fun k (_ : Nat) => 100 + k) (ArrayBuilder.new 2, 0)
+    [.push 1, .cloneInto [7, 8, 9]]).1.1 = .panic := by decide
+example : pushes [.push 1, .push 2, .cloneFrom [7], .push (3 : Nat), .cloneInto [9]] = [7, 3] := by decide
 example : collectConst [.value 1, .cont, .value 3, .brk, .value 5] = CCRes.array [1, 3] := by decide
 example : collectConst2 [.value 1, .value 2] [.value (1 : Nat)] = CCRes.constPanic := by decide
 example : collectConst2 [.value 1] [.value (1 : Nat), .value 2] = CCRes.constPanic := by decide
